@@ -4,7 +4,7 @@ import os
 import json
 
 from kernel.type import TFun, BoolType, NatType
-from kernel.term import Term, Var, Const, And, Implies, Eq, Nat, Inst
+from kernel.term import Term, Var, Const, And, Implies, Eq, Not, Forall, Nat, Inst
 from kernel.thm import Thm
 from kernel import theory
 from kernel import extension
@@ -171,7 +171,15 @@ class ParaSystem():
         """Add the invariant for the system in GCL."""
         s = Var("s", gcl.stateT)
         invC = Const("inv", TFun(gcl.stateT, BoolType))
-        inv_rhs = And(*[gcl.convert_term(self.var_map, s, t) for _, t in self.invs])
+        def closed(inv_vars, t):
+            # An invariant speaks about all pairwise distinct values of its parameters
+            body = gcl.convert_term(self.var_map, s, t)
+            distinct = [Not(Eq(x, y)) for i, x in enumerate(inv_vars) for y in inv_vars[i+1:]]
+            if distinct:
+                body = Implies(*(distinct + [body]))
+            return Forall(*(list(inv_vars) + [body])) if inv_vars else body
+
+        inv_rhs = And(*[closed(inv_vars, t) for inv_vars, t in self.invs])
         prop = Eq(invC(s), inv_rhs)
 
         exts = [
